@@ -3,4 +3,5 @@ CONSTANTS
   MaxCalls = 4
 INVARIANT ConformingNeverBlamed
 INVARIANT StaleBlamedOnlyWhenWrong
+INVARIANT FaultyBlamedOnlyWhenWrong
 CHECK_DEADLOCK FALSE
